@@ -476,6 +476,20 @@ func clientStacks() string {
 	return strings.Join(out, "\n\n")
 }
 
+// publishLoopPaused reports whether a client's publish loop goroutine is
+// waiting in its paused state (it is not inside publish()).
+func publishLoopPaused() bool {
+	for _, g := range strings.Split(sim.GoroutineDump(), "\n\n") {
+		if strings.Contains(g, "opcua.(*Client).monitorSubscriptions") && !strings.Contains(g, "opcua.(*Client).publish(") {
+			hdr, _, _ := strings.Cut(g, "\n")
+			if strings.Contains(hdr, "select") {
+				return true
+			}
+		}
+	}
+	return false
+}
+
 var leakFnRe = regexp.MustCompile(`(github\.com/gopcua/opcua[^\s(]*\([^)]*\)\.[A-Za-z_]+)`)
 
 func leakSig(stack string) string {
